@@ -135,6 +135,39 @@ pub fn run(r: &mut Report) {
         }
         r.case("pattern-grammar", json!({"inputs": n}), "every construct of the pattern grammar is honoured; an uninterpretable DISALLOW pattern fails verification", format!("{:?}", bad), bad.is_empty());
     }
+    // digests are equal only when they are the same bytes: a digest that is a prefix of the other (truncated, empty), longer by a
+    // byte or different in its last byte is another digest - for MATCH (not consumed) and for MODIFY (consumed as modified)
+    {
+        use in_toto::crypto::{HashAlgorithm, HashValue};
+        let full: Vec<u8> = (1u8..=32).collect();
+        let shapes: Vec<(&str, Vec<u8>, bool)> = vec![("identical", full.clone(), true), ("truncated to 16 bytes", full[..16].to_vec(), false), ("truncated by one byte", full[..31].to_vec(), false),
+            ("empty", vec![], false), ("one byte longer", { let mut v = full.clone(); v.push(33); v }, false), ("last byte differs", { let mut v = full.clone(); v[31] ^= 1; v }, false), ("first byte differs", { let mut v = full.clone(); v[0] ^= 1; v }, false)];
+        let td = |bytes: &Vec<u8>| -> in_toto::models::TargetDescription { [(HashAlgorithm::Sha256, HashValue::new(bytes.clone()))].into_iter().collect() };
+        let arts = |bytes: &Vec<u8>| -> std::collections::BTreeMap<VirtualTargetPath, in_toto::models::TargetDescription> { [(vp("x"), td(bytes))].into_iter().collect() };
+        let mut bad: Vec<String> = vec![]; let mut n = 0;
+        for (what, other, same) in &shapes { for swapped in [false, true] {
+            let (d_a, d_b) = if swapped { (other, &full) } else { (&full, other) };
+            let owner = key(1); let ka = key(2); let kb = key(3);
+            // MATCH: b's material x against a's product x
+            let d = tmpdir();
+            let la = in_toto::models::LinkMetadataBuilder::new().name("a".into()).products(arts(d_a)).build().unwrap();
+            let lb = in_toto::models::LinkMetadataBuilder::new().name("b".into()).materials(arts(d_b)).build().unwrap();
+            write_link(d.path(), "a", ka.key_id(), &signed_link(&la, &[&ka])); write_link(d.path(), "b", kb.key_id(), &signed_link(&lb, &[&kb]));
+            let lay = signed_layout(&layout(vec![step("a", 1, &[&ka], allow_all(), allow_all()), step("b", 1, &[&kb], vec![mtch("x", None, Artifact::Products, None, "a"), dis()], allow_all())], vec![], &[&ka, &kb], 30), &[&owner]);
+            let res = no_panic(|| in_toto_verify(&lay, owner_keys(&[&owner]), d.path().to_str().unwrap(), None)).map(|r| r.is_ok());
+            n += 1;
+            if res != Ok(*same) && bad.len() < 8 { bad.push(format!("MATCH: digest {} (swapped {}): {:?}, expected {}", what, swapped, res, same)); }
+            // MODIFY: b's material x (d_a) and product x (d_b)
+            let d2 = tmpdir();
+            let lb2 = in_toto::models::LinkMetadataBuilder::new().name("b".into()).materials(arts(d_a)).products(arts(d_b)).build().unwrap();
+            write_link(d2.path(), "b", kb.key_id(), &signed_link(&lb2, &[&kb]));
+            let lay2 = signed_layout(&layout(vec![step("b", 1, &[&kb], allow_all(), vec![ArtifactRule::Modify(vp("x")), dis()])], vec![], &[&kb], 30), &[&owner]);
+            let res2 = no_panic(|| in_toto_verify(&lay2, owner_keys(&[&owner]), d2.path().to_str().unwrap(), None)).map(|r| r.is_ok());
+            n += 1;
+            if res2 != Ok(!*same) && bad.len() < 8 { bad.push(format!("MODIFY: digest {} (swapped {}): {:?}, expected {}", what, swapped, res2, !same)); }
+        } }
+        r.case("digest-shapes-in-rules", json!({"inputs": n}), "only identical bytes are an equal digest", format!("{:?}", bad), bad.is_empty());
+    }
     // a MATCH rule compares the digest recorded on ITS side of the link: the same path recorded as material and as product with
     // every combination of digests against the source step's product / material of that name
     {
